@@ -423,7 +423,15 @@ pub fn gen_stream(r: &mut Rng, cfg: &StreamCfg, nonce: &str) -> Vec<TracingEvent
             }
         };
         let kind = if is_span { CallSiteKind::Span } else { CallSiteKind::Event };
-        let d = call_site(kind, nonce, &format!("cs{i}"), nf, r.chance(10));
+        // near-duplicates: a call site that agrees with an earlier one of the same kind in everything
+        // but its field list (a longer or shorter list of the same names, i.e. prefix-related; sometimes
+        // the same names in reverse order), or in nothing at all (the same description under two ids)
+        let twin = if i >= 1 && r.chance(35) { (0..i).rev().find(|j| g.sites[*j].2 == is_span) } else { None };
+        let name = format!("cs{}", twin.unwrap_or(i));
+        let mut d = call_site(kind, nonce, &name, nf, twin.is_none() && r.chance(10));
+        if twin.is_some() && r.chance(25) {
+            d.fields.reverse();
+        }
         let id = 100 + i as u64 * 7;
         g.sites.push((id, nf, is_span));
         datas.push((id, d.clone()));
